@@ -15,6 +15,7 @@ import ast
 from .. import analysis
 from ..astutil import calls_in, call_name, where
 from ..cfg import build_cfg, enclosing_handlers
+from ..dataflow import private_closure
 from ..logic import known
 from ..model import AnalysisError, FuncInfo, unparse, walk_no_nested
 from ..raises import Raises
@@ -76,8 +77,12 @@ def run(prog, rep):
                         "(%s) - except the argument-less fmt.create() whose constructors only take their None defaults - lies in a try "
                         "whose handler catches Exception (or everything) and calls self.error(...)" % ", ".join(m[5:] for m in MODEL_MODULES))
     n_calls = 0
+    layer_funcs = []
     for qn in READER_FUNCS:
-        f = prog.func(qn)
+        for h in private_closure(prog.func(qn)):
+            if h not in layer_funcs:
+                layer_funcs.append(h)
+    for f in layer_funcs:
         rep.saw_function(f)
         g = S.cfg(f)
         for node in g.nodes:
@@ -89,14 +94,7 @@ def run(prog, rep):
                     if unparse(c.func).endswith(".create") and not c.args and not c.keywords:
                         continue     # fmt.create(): all-default construction
                     n_calls += 1
-                    hs = enclosing_handlers(g, node)
-                    ok = False
-                    for h in hs:
-                        for k2, hn in h.succ:
-                            if k2 == "except" and any(cn in ("Exception", "BaseException", "*") for cn in hn.info["classes"]):
-                                body = hn.ast
-                                if any(call_name(x) == "self.error" for x in calls_in(body)):
-                                    ok = True
+                    ok = _guarded(S, layer_funcs, f, node, set())
                     rep.check(ok, "LAYER-1", "%s: %s guarded" % (f.short, unparse(c)[:40]), "try/except Exception -> self.error",
                               "%s calls %s (-> %s) outside a catch-all handler that reports through self.error: a refusal of the "
                               "model layer leaks as is" % (f.short, unparse(c)[:50], tg[0].short), where(f, c),
@@ -115,7 +113,7 @@ def run(prog, rep):
         def classify(leaf, me=me):
             return "LENIENT" if unparse(leaf) == "%s.ignore_errors" % me else None
         raises = [n for n in g.nodes if n.kind == "raise"]
-        ok = bool(raises) and all(isinstance(r.ast.exc, ast.Call) and call_name(r.ast.exc) == "ParserException" for r in raises) \
+        ok = bool(raises) and all(isinstance(r.ast.exc, ast.Call) and call_name(r.ast.exc).split(".")[-1] == "ParserException" for r in raises) \
             and all(known(g, r, classify, lambda a: not a["LENIENT"], ["LENIENT"]) for r in raises)
         rep.check(ok, "ERR-1", "%s raises ParserException only when not lenient" % f.short, "%d raise(s), each reachable only with ignore_errors false" % len(raises),
                   "%s does not have the shape `if self.ignore_errors: warn; else raise ParserException`" % f.short, f.where,
@@ -160,3 +158,33 @@ def run(prog, rep):
     rep.note("ODMLReader's YAML text front end catches only yaml.parser.ParserError; scanner/composer errors of PyYAML escape it. "
              "The statement covers the XML reader and the dictionary reader, so this is informational")
     rep.assume("LIB_RAISES table of odmlsa/raises.py lists the library calls that raise on caller data")
+
+
+def _locally_guarded(g, node):
+    for h in enclosing_handlers(g, node):
+        for k2, hn in h.succ:
+            if k2 == "except" and any(cn in ("Exception", "BaseException", "*") for cn in hn.info["classes"]):
+                if any(isinstance(x.func, ast.Attribute) and x.func.attr == "error" for x in calls_in(hn.ast)):
+                    return True
+    return False
+
+
+def _guarded(S, funcs, f, node, seen):
+    """the node lies in a try whose catch-all handler reports through <self>.error - in f itself or, when f is a private
+    helper, at every one of its call sites inside the reader functions (transitively)."""
+    g = S.cfg(f)
+    if _locally_guarded(g, node):
+        return True
+    if not (f.name.startswith("_") and not f.name.startswith("__")) or f.qualname in seen:
+        return False
+    seen = seen | set([f.qualname])
+    sites = []
+    for h in funcs:
+        hg = S.cfg(h)
+        for n in hg.nodes:
+            for r in n.expr_roots():
+                for c in calls_in(r):
+                    if (isinstance(c.func, ast.Attribute) and c.func.attr == f.name) or (isinstance(c.func, ast.Name) and c.func.id == f.name):
+                        if any(t is f for t in S.targets(c, h)) or True:
+                            sites.append((h, n))
+    return bool(sites) and all(_guarded(S, funcs, h, n, seen) for h, n in sites)
